@@ -388,7 +388,18 @@ func sanitizeFile(s string) string {
 var MaxFailures = 6
 
 // noRetry disables the long second attempt (set by tests of the engine itself).
-var noRetry = false
+var noRetry = os.Getenv("VERIF_NO_RETRY") != ""
+
+func init() {
+	// must-fail runs (seeded changes) only need the first failures
+	if v := os.Getenv("VERIF_MAX_FAILURES"); v != "" {
+		n := 0
+		fmt.Sscanf(v, "%d", &n)
+		if n > 0 {
+			MaxFailures = n
+		}
+	}
+}
 
 func DischargeAll(obls []*Obligation, dir string, timeoutS, seed, workers int, all bool) {
 	var wg sync.WaitGroup
@@ -426,6 +437,13 @@ func DischargeAll(obls []*Obligation, dir string, timeoutS, seed, workers int, a
 					}
 					bad := false
 					for _, p := range o.Parts {
+						mu.Lock()
+						stopParts := MaxFailures > 0 && failures >= MaxFailures
+						mu.Unlock()
+						if stopParts {
+							p.Status = "skipped"
+							continue
+						}
 						Discharge(p, dir, timeoutS, seed, all)
 						if p.Status != "unsat" {
 							bad = true
